@@ -243,8 +243,8 @@ int main(int argc, char** argv) {
                    "statistics/JF.calcJacobian", [&] { return desc + " userCalls=" + std::to_string(dj.getNumCallsToUserFunction()) + " fnCalls=" + std::to_string(jf.getNumCalls()); });
         bool unchanged = true; for (int i = 0; i < n; ++i) if (!(y[i] == y0[i])) unchanged = false;
         run.expect(unchanged, "input.y0-modified", [&] { return desc; });
-        uint64_t oh = verif::hashPod(order); for (auto& r : E) for (double v : r) oh = verif::hashPod(v, oh);
-        run.outcome(oh);
+        // coarse outcome (method order, function, shape, accuracy, decade and sign of the first estimate): the set of distinct outcomes must stay small
+        { int dec = E[0][0] == 0 ? -999 : (int)std::floor(std::log10(std::fabs(E[0][0]))); uint64_t oh = verif::hashPod(order * 1000000 + g * 100000 + n * 1000 + m * 10 + ai); run.outcome(verif::hashMix(oh, (uint64_t)(dec * 2 + (E[0][0] < 0)))); }
         if (idx % 9973 == 0) run.sample(desc + " -> dfdy(0,0)=" + verif::str(E[0][0]) + " exact=" + verif::str((double)F.dfdy(0, 0, yl.data())));
 
         auto scaleOf = [&](int k, int i) { double h = J.docStep(y0[i]); return (std::fabs(f0v[k]) + std::fabs(E[k][i] * h)) / (h > 0 ? h : 1); };
